@@ -32,8 +32,7 @@ Techniques (DESIGN 2b):
   are not examined).
 * R-C14-5 (views): single-return accessors by AST pattern; the typed generators are run by the local evaluator GenEval (sa/peval subclass) once
   per concrete type argument -- T3, exhaustive over that finite domain.  Its adjacency clause is the interpreted edit history shared with C01
-  (R-C01-2b: get_links_for_node on the fixture model after reversing / moving / self-looping / removing and re-adding links); `.nodes()` / `.links()`
-  in to_graph is still a text match.
+  (R-C01-2b: get_links_for_node and to_graph on the fixture model after reversing / moving / self-looping / removing and re-adding links).
 """
 import ast
 from ..src import (walk, calls, call_name, last_attr, dotted, norm, loc, const, AnchorError,
@@ -1325,11 +1324,7 @@ def run(repo, chk):
             tags.add(const(r[0].value) if r else None)
         chk.expect(lt is not None and tags <= lt, "R-C14-5", "link usage tags (link_type of Pipe/Pump/Valve) are the tags get_links_for_node accepts", loc(fn),
                    "a link registered under a tag the adjacency view filters out disappears from get_links_for_node", expected=sorted(map(str, tags)), found=sorted(map(str, lt or [])))
-        # to_graph iterates the registries
-        tg = repo.func("wntr/network/io.py", "to_graph")
-        chk.fn(tg)
-        s = unparse(tg)
-        chk.expect(".nodes()" in s and ".links()" in s, "R-C14-5", "to_graph is built from wn.nodes() and wn.links()", loc(tg))
+        # to_graph: decided by running it on the fixture model after every step of the edit history above (real networkx), not by its text
         # end-node setters: that they store the registry's own node object and move exactly the old end's usage record is decided by running them (R-C14-5s
         # below on all 8 configurations, and the edit history above, which also checks the identity of the stored node); the former pattern clauses (text of the
         # assigned value, line order of remove_usage and the assignment) were dropped -- they fired on a shared helper for the two setters
@@ -1366,6 +1361,9 @@ def run(repo, chk):
 
 
 WITNESSES = [
+    dict(name="graph-edges-drawn-end-to-start", file="wntr/network/io.py", old="        G.add_edge(start_node, end_node, key=name)\n", new="        G.add_edge(end_node, start_node, key=name)\n", rule="R-C14-5"),
+    dict(name="graph-built-from-the-name-lists-preserving", file="wntr/network/io.py", old="    for name, node in wn.nodes():\n        G.add_node(name)\n",
+         new="    for name in wn.node_name_list:\n        node = wn.get_node(name)\n        G.add_node(name)\n", silent=True),
     # ---- refusal / atomicity histories (rule_refusals)
     dict(name="setter-adds-before-it-removes", file=ELEM, old="        self._curve_reg.remove_usage(self._vol_curve_name, (self._name, 'Tank'))\n        self._curve_reg.add_usage(name, (self._name, 'Tank'))\n",
          new="        self._curve_reg.add_usage(name, (self._name, 'Tank'))\n        self._curve_reg.remove_usage(self._vol_curve_name, (self._name, 'Tank'))\n", rule="R-C14-1c"),
